@@ -51,6 +51,7 @@ XLS_FEATURES = {
     "header-only-sheet": "a sheet with a single row (twin: two rows)",
     "leading-empty-row": "data starts in the second sheet row (twin: first row)",
     "empty-sheet": "a sheet without any cell between other sheets (twin: a one-column sheet)",
+    "picture-spanning-continue-records": "an embedded picture larger than one BIFF record (8224 bytes): MSODRAWINGGROUP + CONTINUE records (twin: a small picture in one record)",
     "cp1252-summary": "SummaryInformation strings in code page 1252 with non-ASCII characters (twin: code page 65001)",
 }
 DOC_FEATURES = {
@@ -431,6 +432,22 @@ def build_xls(seed: int, feature: str | None = None, twin: bool = False):
         sst.append(s)
         return len(sst) - 1
 
+    # pictures: BStore with inline blips in the globals' MSODRAWINGGROUP, one picture shape (MSODRAWING + OBJ) on a sheet
+    exp.images_claimed = True
+    prng = random.Random(f"xls:{seed}:pictures")
+    blips: list[dict] = []
+    pics_on: dict[int, list[int]] = {}
+    if feature == "picture-spanning-continue-records":
+        side = prng.randint(56, 80) if not twin else prng.randint(4, 24)     # 24-bit DIB: > 8224 bytes from 53 x 53 on
+        plan = [("bmp", side, side + 1)]
+    else:
+        plan = [(prng.choice(["png", "jpeg", "bmp"]), prng.randint(2, 40), prng.randint(2, 40)) for _ in range(prng.choice([0, 0, 0, 1, 1, 2]))]
+    for codec, w_, h_ in plan:
+        b = _blip(codec, w_, h_, prng.randrange(1 << 16))
+        blips.append(b)
+        pics_on.setdefault(prng.randrange(n_sheets), []).append(len(blips))
+        exp.images.append({"sha": b["sha"], "ctype": b["ctype"], "w": b["w"], "h": b["h"], "unit": None})   # workbook-level in this API
+
     sheet_bodies: list[bytes] = []
     names: list[str] = []
     for s in range(n_sheets):
@@ -552,6 +569,21 @@ def build_xls(seed: int, feature: str | None = None, twin: bool = False):
                                               + struct.pack("<H", j + len(run) - 1)))
                             idx += len(run) - 1
                 idx += 1
+        if pics_on.get(s):
+            dg = s + 1
+            group = _cont(0xF004, [_rec(1, 0, 0xF009, b"\0" * 16), _rec(2, 0, 0xF00A, struct.pack("<II", dg * 1024, 0x0005))])
+            shapes = []
+            for i, pib in enumerate(pics_on[s]):
+                fsp = _rec(2, 75, 0xF00A, struct.pack("<II", dg * 1024 + 1 + i, 0x0A00))
+                fopt = _rec(3, 1, 0xF00B, struct.pack("<HI", 0x4104, pib))
+                anchor = _rec(0, 0, 0xF010, struct.pack("<9H", 2, cols + 1, 0, 1 + 3 * i, 0, cols + 3, 0, 3 + 3 * i, 0))
+                shapes.append(_cont(0xF004, [fsp, fopt, anchor, _rec(0, 0, 0xF011, b"")]))
+            spgr_len = len(group) + sum(len(x) for x in shapes)
+            fdg = _rec(0, dg, 0xF008, struct.pack("<II", len(shapes) + 1, dg * 1024 + len(shapes)))
+            first = (struct.pack("<HHI", 0xF, 0xF002, len(fdg) + 8 + spgr_len) + fdg + struct.pack("<HHI", 0xF, 0xF003, spgr_len) + group)
+            for i, shp in enumerate(shapes):    # every shape is followed by its OBJ record (ftCmo picture, ftEnd)
+                body.append(_biff(0x00EC, (first if i == 0 else b"") + shp))
+                body.append(_biff(0x005D, struct.pack("<HHHHH", 0x15, 0x12, 8, i + 1, 0x6011) + b"\0" * 12 + b"\0" * 4))
         body.append(_biff(0x023E, struct.pack("<HHHIHHI", 0x06B6 if s == 0 else 0x00B6, 0, 0, 64, 0, 0, 0)))
         body.append(_biff(0x000A))
         sheet_bodies.append(b"".join(body))
@@ -583,7 +615,11 @@ def build_xls(seed: int, feature: str | None = None, twin: bool = False):
             rid, cur = 0x003C, b""        # CONTINUE, split between strings
         cur += enc
     sst_recs.append(_biff(rid, cur))
-    tail = b"".join(sst_recs) + _biff(0x000A)
+    mso = b""
+    if blips:
+        dgg = _dgg(len(pics_on), [_fbse(b, 0, inline=True) for b in blips])
+        mso = b"".join(_biff(0x00EB if i == 0 else 0x003C, dgg[i:i + 8224]) for i in range(0, len(dgg), 8224))
+    tail = mso + b"".join(sst_recs) + _biff(0x000A)
     head = b"".join(g)
     bs_len = sum(4 + 6 + len(_xl_str(n, "<B")) for n in names)
     pos = len(head) + bs_len + len(tail)
@@ -813,6 +849,35 @@ BUILDERS = {
 
 # ========================================================================================= self test
 
+def _xls_blip_shas(wb: bytes) -> list[str]:
+    """Reassemble MSODRAWINGGROUP + CONTINUE, walk Dgg -> BStore -> FBSE -> inline blip (self test)."""
+    off, mso, last = 0, b"", None
+    while off + 4 <= len(wb):
+        rid, ln = struct.unpack_from("<HH", wb, off)
+        if rid == 0x00EB or (rid == 0x003C and last == 0x00EB):
+            mso += wb[off + 4:off + 4 + ln]
+        if rid != 0x003C:
+            last = rid
+        off += 4 + ln
+    out = []
+    if mso:
+        vi, rt, ln = struct.unpack_from("<HHI", mso, 0)
+        assert rt == 0xF000 and ln + 8 == len(mso)
+        off = 8
+        while off < len(mso):
+            vi, rt, ln = struct.unpack_from("<HHI", mso, off)
+            if rt == 0xF001:
+                p, end = off + 8, off + 8 + ln
+                while p < end:
+                    _, rt2, ln2 = struct.unpack_from("<HHI", mso, p)
+                    assert rt2 == 0xF007
+                    out += _blip_shas(mso, p + 8 + 36, p + 8 + ln2)
+                    p += 8 + ln2
+            off += 8 + ln
+    return out
+
+
+
 def _blip_shas(data: bytes, start: int = 0, end: int | None = None) -> list[str]:
     """SHA-1 of the image file held by every OfficeArtBlip record of a flat record sequence (self test)."""
     out, off = [], start
@@ -883,6 +948,7 @@ def self_test(n: int = 40) -> dict:
                     book = xlrd.open_workbook(file_contents=data, logfile=io.StringIO())
                     assert book.nsheets == exp.n_units == len(exp.tables)
                     assert book.codepage == 1200 and book.biff_version == 80
+                    assert _xls_blip_shas(got["Workbook"]) == [i["sha"] for i in exp.images], (seed, feature, twin)
                     for sh, want in zip(book.sheets(), exp.tables):
                         grid = want["grid"]
                         assert T.find(sh.name) and sh.name in exp.ignored
